@@ -293,4 +293,54 @@ def clipSegmentSegment (a1 b1 a2 b2 : V2 K) : Option (ClipPts K × ClipPts K) :=
         ⟨s11, s20.add ((s21.sub s20).smul bc), f11, 1⟩
     some (ca, cb)
 
+/-! ## World-space and canonical-axis wrappers (split_trimesh.rs, split_segment.rs)
+
+`TriMesh::split(position, axis, bias, eps)` and `TriMesh::intersection_with_plane(position, axis, bias, eps)` only move the plane
+into the mesh's local frame and call `local_split` / `intersection_with_local_plane`;
+`{TriMesh, Segment}::canonical_split(i, ..)` and `TriMesh::canonical_intersection_with_plane(i, ..)` call the local function with
+`Vector::ith_axis(i)`. The plane transfer is closed-form and modelled here; the local mesh functions stay oracle-only. -/
+
+/-- `Vector::ith_axis(i)` (`Unit::new_unchecked` of the `i`-th basis vector); Rust panics for `i ≥ 3`. -/
+def ithAxis (i : Fin 3) : V3 K :=
+  if i.val = 0 then ⟨1, 0, 0⟩ else if i.val = 1 then ⟨0, 1, 0⟩ else ⟨0, 0, 1⟩
+
+/-- the local plane `(local_axis, bias + added_bias)` that `TriMesh::split` and `TriMesh::intersection_with_plane` hand to the
+local-space function:
+`local_axis = position.inverse_transform_unit_vector(axis)` (= `rotation.inverse() * axis`),
+`added_bias = -position.translation.vector.dot(axis)`. -/
+def planeToLocal (pos : Iso3 K) (axis : V3 K) (bias : K) : V3 K × K :=
+  let localAxis := pos.invRot axis
+  let addedBias := -(pos.t.dot axis)
+  (localAxis, bias + addedBias)
+
+/-- the vertex colour of `TriMesh::local_split` / `intersection_with_local_plane`:
+`let dist_to_plane = pt.coords.dot(local_axis) - bias; if dist_to_plane < -epsilon {1} else if dist_to_plane > epsilon {2} else {0}`
+(0 = on the plane up to `epsilon`, 1 = negative side, 2 = positive side). -/
+def vertexColour (n : V3 K) (bias eps : K) (p : V3 K) : Nat :=
+  let d := p.dot n - bias
+  if d < -eps then 1 else if eps < d then 2 else 0
+
+/-- the early exit shared by `TriMesh::local_split` and `TriMesh::intersection_with_local_plane` (vertex partition loop, then
+`if !found_negative { return Positive }`, `if !found_positive { return Negative }`); `.pair () ()` = the plane crosses the mesh and
+the function goes on to cut it (`Pair(..)` / `Intersect(..)` for a mesh whose vertices are all used by triangles). -/
+def meshVerdict (pts : List (V3 K)) (n : V3 K) (bias eps : K) : Split Unit :=
+  let foundNegative := pts.any fun p => vertexColour n bias eps p == 1
+  let foundPositive := pts.any fun p => vertexColour n bias eps p == 2
+  if !foundNegative then .positive else if !foundPositive then .negative else .pair () ()
+
+/-- verdict of the world-space wrappers `TriMesh::split(position, axis, bias, eps)` / `intersection_with_plane(..)` -/
+def meshVerdictPos (pts : List (V3 K)) (pos : Iso3 K) (axis : V3 K) (bias eps : K) : Split Unit :=
+  let (la, lb) := planeToLocal pos axis bias
+  meshVerdict pts la lb eps
+
+/-- verdict of `TriMesh::canonical_split(i, bias, eps)` / `canonical_intersection_with_plane(..)` -/
+def meshVerdictCanonical (pts : List (V3 K)) (i : Fin 3) (bias eps : K) : Split Unit :=
+  meshVerdict pts (ithAxis i) bias eps
+
+namespace Segment3
+/-- `Segment::canonical_split(axis, bias, epsilon)` = `local_split(&Vector::ith_axis(axis), bias, epsilon)` -/
+def canonicalSplit (s : Segment3 K) (axis : Fin 3) (bias eps : K) : Split (Segment3 K) :=
+  (s.localSplit (ithAxis axis) bias eps).1
+end Segment3
+
 end Model
